@@ -40,7 +40,7 @@ class C01(DiffProperty):
                   "ASan/UBSan build (per-call state and window bytes compared) and by decoding the implementation's frames with its own decoder")
     level_note = ("trusted: Coq kernel; hand transcription of the encoders (validated by the correspondence run); extraction + OCaml driver; harness. "
                   "The command-text framing has its own theorems (C01_text_encoder_roundtrip, C01_text_decoder_delivers: encoder for all splits/capacities, decoder for a whole text in one fragment); "
-                  "multi-call command decoding is proved in C03 (C03_command_history_delivers); mpt_array_push (the library's retry loop: allocation, growth by detach, partial consumption) is modelled ([apush]), driven for real by the harness and proved to keep the encoder invariant (C01_array_push_data, C01_array_push_term; up to the model's loop fuel, exhaustion = EFault is never observed); multi-fragment iovecs of the command decoder are correspondence-only. All theorems closed under the global context.")
+                  "multi-call command decoding is proved in C03 (C03_command_history_delivers); mpt_array_push (the library's retry loop: allocation, growth by detach, partial consumption) is modelled ([apush]), driven for real by the harness and proved to keep the encoder invariant (C01_array_push_data, C01_array_push_term) and to terminate (C01_array_push_terminates: at most two rounds per byte, the model's round budget is never exhausted); multi-fragment iovecs of the command decoder are correspondence-only. All theorems closed under the global context.")
     technique = "Coq invariant proof over the resumable encoder (all splits, all capacity schedules) + differential correspondence check"
 
     def project(self, tok):
